@@ -184,7 +184,12 @@ func (f *Fosite) DefaultClientAuthenticationStrategy(ctx context.Context, r *htt
 			return nil, errorsx.WithStack(err)
 		}
 		if err := f.Store.SetClientAssertionJWT(ctx, jti, time.Unix(expiry, 0)); err != nil {
-			return nil, err
+			// ErrJTIKnown and other OAuth 2.0 errors are passed on; an unexpected storage failure is a server error,
+			// not an unrecognizable one.
+			if rfcErr := new(RFC6749Error); errors.As(err, &rfcErr) {
+				return nil, err
+			}
+			return nil, errorsx.WithStack(ErrServerError.WithWrap(err).WithDebug(err.Error()))
 		}
 
 		if !audienceMatchesTokenURLs(claims, f.Config.GetTokenURLs(ctx)) {
